@@ -15,7 +15,7 @@ from pyvc import ops
 from pyvc.models.ase_model import AtomsScalar
 from pyvc.objects import Builtin, Ext, GeneratorVal, Obj
 from pyvc.solver import CutPath
-from pyvc.values import Sym, to_z3
+from pyvc.values import PyExc, Sym, to_z3
 
 DRV = "quansino.mc.driver.Driver"
 MC = "quansino.mc.core.MonteCarlo"
@@ -144,7 +144,7 @@ def build(S, tier):
         del g["log"][:]
         if I.truth(I.eval(node.test, frame)):
             g["iter_sc"] = sc
-            yield from I.exec_block(node.body, frame)
+            yield from I.exec_loop_body(node, frame)
             I.path.oblige(DRV + ".irun#loop[0].preserve", inv(), kind="loop")
             g["iter_log"] = list(g["log"])
             g["iter_after"] = drv.attrs["step_count"]
@@ -164,6 +164,7 @@ def build(S, tier):
         I.path.assume(s0.t >= 0)
         mc.attrs["step_count"] = s0
         mc.attrs["_initial_observers_called"] = flag
+        mc.attrs["max_steps"] = I.path.fresh("max_steps_left_by_an_earlier_run", "int")        # e.g. an interrupted run that never reached its target
         I.path.ghost.update(s0=s0, steps=steps, flag0=flag)
 
         def step_contract(I_, fv, args, kwargs):
@@ -175,6 +176,9 @@ def build(S, tier):
 
         def obs_contract(I_, fv, args, kwargs):
             log.append(("call_observers", args[0].attrs["step_count"]))
+            if I_.path.ghost.get("observer_round_fails_once"):
+                I_.path.ghost["observer_round_fails_once"] = False
+                raise PyExc("RuntimeError", ("a user observer failed",))
 
         def validate_contract(I_, fv, args, kwargs):
             log.append(("validate", args[0].attrs["step_count"]))
@@ -196,6 +200,8 @@ def build(S, tier):
     for ename, (how, eager) in entries.items():
         def run_entry(I, how=how, eager=eager, unrolled=None):
             mc, s0, steps, flag, log = make_driver(I, eager, unrolled)
+            if unrolled is not None:
+                I.hooks["max_unroll"] = unrolled + 4          # a loop that runs longer than that has already performed too many steps
             if how == "run_base":
                 I.call(I.get_function(DRV + ".run"), [mc, steps], {})
             elif how == "run":
@@ -208,6 +214,46 @@ def build(S, tier):
                     for _ in I.iterate(st):
                         pass
             return dict(mc=mc, log=log, s0=s0, flag=flag)
+
+        # ---- "the log header is written once": also when the round of step 0 fails (a user observer raises), the caller
+        # catches the error and runs again
+        def run_after_failed_round(I, how=how, eager=eager):
+            mc, s0, steps, flag, log = make_driver(I, eager, 1)
+            I.hooks["max_unroll"] = 5
+            I.path.assume(z3.And(s0.t == 0, z3.Not(flag.t)))
+            I.path.ghost["observer_round_fails_once"] = True
+
+            def go():
+                if how == "run_base":
+                    I.call(I.get_function(DRV + ".run"), [mc, 1], {})
+                elif how == "run":
+                    I.call(I.getattr(mc, "run"), [1], {})
+                elif how == "srun":
+                    for _ in I.iterate(I.call(I.getattr(mc, "srun"), [1], {})):
+                        pass
+                else:
+                    for st in I.iterate(I.call(I.getattr(mc, "irun"), [1], {})):
+                        for _ in I.iterate(st):
+                            pass
+            try:
+                go()
+                failed = False
+            except PyExc as e:
+                failed = e.cls_name == "RuntimeError"
+            go()
+            return dict(log=log, failed=failed)
+
+        flabel = f"run again after the round of step 0 failed, via {ename}"
+        for i, p in enumerate(S.explore(run_after_failed_round, flabel)):
+            S.adopt(p, prefix=f"[{ename}, failed round]")
+            if p.status == "unsupported":
+                continue
+            if p.status != "return":
+                S.prove(f"{flabel}#noraise@{i}", False, kind="noraise", why=f"raises {p.exc!r}")
+                continue
+            heads = [e for e in p.value["log"] if e[0] == "header"]
+            S.prove(f"{flabel}#cover.the_failure_reached_the_caller@{i}", p.value["failed"], kind="cover")
+            S.prove(f"{flabel}#ensures.header_written_once@{i}", len(heads) == 1, kind="ensures", why=str([e[0] for e in p.value["log"]]))
 
         # ---- the statement itself for runs of N = 0..3 steps from an arbitrary start (the real loop is executed, no loop
         # contract): the observable trace -- header, observer rounds with the step number they see, step bodies -- is the
@@ -319,4 +365,16 @@ def build(S, tier):
     S.prove("lemma:split.final_counter", (s0 + a) + b == s0 + (a + b), hyps=base, kind="lemma")
     S.prove("lemma:schedule.positive_interval_fires_at_zero_and_multiples", z3.Implies(iv > 0, z3.And(sched(iv, 0), sched(iv, 3 * iv), z3.Not(z3.And(iv > 1, sched(iv, iv + 1))))), kind="lemma")
     S.prove("lemma:schedule.negative_interval_fires_exactly_once", z3.Implies(z3.And(iv < 0, k >= 0), sched(iv, k) == (k == -iv)), kind="lemma")
+    # ------------------------------------------------------------------ run a then b = run a+b also needs what every run call does first
+    # (validate_simulation: reference energy, reference positions) to leave the trial-boundary invariant intact: a reference state
+    # that aliases the live arrays makes the first rejected trial of EVERY run call irreversible.  That invariant is the C03
+    # contract; its canonical case is re-discharged here (validate_simulation is executed for real there).
+    from contracts import C03
+    n0 = len(S.obligations)
+    m = C03.build(S, tier, cases=("Canonical+DisplacementMove",)) or {}
+    for a_ in m.get("assumptions", []):
+        if f"[C03] {a_}" not in meta["assumptions"]:
+            meta["assumptions"].append(f"[C03] {a_}")
+    if not any("C03" in (lbl or "") or "trial:" in (lbl or "") for lbl, _ in S.unsupported):
+        S.prove("run call prologue#cover.trial_boundary_contract_rechecked", len(S.obligations) - n0 >= 20, kind="cover", why=str(len(S.obligations) - n0))
     return meta
